@@ -6,6 +6,7 @@ import r03_homog
 import r04_conv
 import r05_select
 import r16_frame
+import r17_determination
 import r06_validate
 import r07_cache
 import r08_toporder
@@ -74,9 +75,13 @@ def r5(ctx, prop):
     return rs
 
 
+def r17(ctx, prop):
+    return r17_determination.run(ctx.F())
+
+
 def r16(ctx, prop):
     rs = r16_frame.run(ctx.F())
-    want = {"C05": ("frame|",), "C18": ("spec|",)}.get(prop)
+    want = {"C05": ("frame|", "guess|tp_flash"), "C18": ("spec|",), "C04": ("guess|pure",)}.get(prop)
     if want:
         for r in rs:
             r.instances = [i for i in r.instances if i["id"].startswith(want)]
@@ -193,8 +198,8 @@ PROPERTY_RULES = {
     "C13": [r1_guard, r8],
     "C17": [r1_functional, r8],
     "C11": [r9, r7],
-    "C03": [r6, r4, r5],
-    "C04": [r4],
+    "C03": [r6, r17, r4, r5],
+    "C04": [r4, r16],
     "C05": [r4, r5, r16],
     "C06": [r4, r1_all],
     "C07": [r5, r4],
